@@ -34,7 +34,8 @@ theorem dialer_facts : Generated.dialerFacts =
     `conn.Close` closes whenever not yet closed; the ws listener's Close wakes Accept and closes what is queued, Accept
     fails once the listener is not running, `ServeHTTP` refuses when not running and `handler` closes a connection that
     was upgraded across Close; the ws dialer remembers the connection whose upgrade is in progress (`netDial`) and its Close
-    closes it.  Any edit to these functions re-opens this obligation. -/
+    closes it; the inproc dialer's Close ends a Dial waiting for an accepter, the inproc listener's Close fails the parked
+    accepters and wakes the waiting dials.  Any edit to these functions re-opens this obligation. -/
 theorem close_paths : Generated.closeShapes = [
   ("internal/core:dialer.Close", ["d.Lock()", "defer d.Unlock()", "if d.closed", ">return mangos.ErrClosed", "if d.redialer!=nil", ">d.redialer.Stop()", "d.closed=true", "if c,ok:=d.d.(interface{}); ok", ">_=c.Close()", "return nil"]),
   ("internal/core:listener.Close", ["l.Lock()", "defer l.Unlock()", "if l.closed", ">return mangos.ErrClosed", "l.closed=true", "return l.l.Close()"]),
@@ -54,6 +55,8 @@ theorem close_paths : Generated.closeShapes = [
   ("transport/ws:listener.ServeHTTP", ["matched:=false", "range websocket.Subprotocols(r)", ">if subProto==l.proto.SelfName+\".sp.nanomsg.org\"", ">>matched=true", "if !matched", ">http.Error(w,\"SP protocol mis-match\",http.StatusBadRequest)", ">return ", "l.lock.Lock()", "if !l.running", ">l.lock.Unlock()", ">http.Error(w,\"No handler at that address\",http.StatusNotFound)", ">return ", "ug:=l.ug", "l.lock.Unlock()", "ws,err:=ug.Upgrade(w,r,nil)", "if err!=nil", ">return ", "verifUpgraded(ws)", "l.handler(ws,r)"]),
   ("transport/ws:dialer.Close", ["d.lock.Lock()", "d.closed=true", "range d.conns", ">_=c.Close()", "d.lock.Unlock()", "d.cancel()", "return nil"]),
   ("transport/ws:dialer.netDial", ["var nd net.Dialer", "c,err:=nd.DialContext(ctx,network,addr)", "if err!=nil", ">return nil,err", "d.lock.Lock()", "defer d.lock.Unlock()", "if d.closed", ">_=c.Close()", ">return nil,mangos.ErrClosed", "d.conns[c]=<*ast.StructType>{…}", "return c,nil"]),
+  ("transport/inproc:dialer.Close", ["listeners.mx.Lock()", "d.closed=true", "listeners.cv.Broadcast()", "listeners.mx.Unlock()", "return nil"]),
+  ("transport/inproc:listener.Close", ["listeners.mx.Lock()", "if listeners.byAddr[l.addr]==l", ">delete(listeners.byAddr,l.addr)", "servers:=l.accepters", "l.accepters=nil", "listeners.cv.Broadcast()", "l.closed=true", "listeners.mx.Unlock()", "range servers", ">close(s.closeq)", "return nil"]),
   ("transport/ws:listener.handler (head)", ["l.lock.Lock()", "if !l.running", ">l.lock.Unlock()", ">_=ws.Close()", ">return "])
 ] := by decide
 
